@@ -35,6 +35,7 @@ type Case struct {
 	Note     string    `json:"note,omitempty"`
 	GenTape  []uint32  `json:"gen_tape,omitempty"` // generator choice tape (for shrinking); not part of the case identity
 	Mode     uint      `json:"mode,omitempty"`     // expand: ExpMode
+	DFS      int       `json:"dfs,omitempty"`      // >0: walk ALL schedule tapes of this case depth-first (at most this many runs) instead of the planned schedules
 }
 
 type HereDoc struct {
